@@ -90,6 +90,18 @@ def build_funcs(ck, imms, quick):
                   locs="i64:r, i64:p, i64:x", dom=dom, shape="mr")
             g.add(key, "ii_i", f"  alloca p, 32\n  mov i64:8(p), a\n  {op} r, i64:8(p), b\n{post}  ret r",
                   locs="i64:r, i64:p", dom=dom, shape="m1")
+            g.add(key, "ii_i", f"  alloca p, 32\n  mov i64:(p), b\n  {op} r, a, i64:(p)\n{post}  mov i64:16(p), r\n  mov r, i64:16(p)\n  ret r",
+                  locs="i64:r, i64:p", dom=dom, shape="rm live-base")
+            g.add(key, "ii_i", f"  alloca p, 32\n  mov i64:(p), a\n  {op} r, i64:(p), b\n{post}  mov i64:16(p), r\n  mov r, i64:16(p)\n  ret r",
+                  locs="i64:r, i64:p", dom=dom, shape="m1 live-base")
+            if short:   # 32-bit memory operands select their own machine patterns (m2 rows)
+                for mt in ("i32", "u32"):
+                    # the base register stays live after the instruction and has no displacement, so the load can
+                    # be folded into the instruction whatever registers the operands get
+                    g.add(key, "ii_i", f"  alloca p, 32\n  mov i64:(p), b\n  {op} r, a, {mt}:(p)\n{post}  mov i64:16(p), r\n  mov r, i64:16(p)\n  ret r",
+                          locs="i64:r, i64:p", dom=dom, shape="rm " + mt)
+                    g.add(key, "ii_i", f"  alloca p, 32\n  mov i64:(p), a\n  {op} r, {mt}:(p), b\n{post}  mov i64:16(p), r\n  mov r, i64:16(p)\n  ret r",
+                          locs="i64:r, i64:p", dom=dom, shape="m1 " + mt)
             g.add(key, "ii_i", f"  alloca p, 32\n  mov i64:8(p), a\n  mov x, i64:8(p)\n  {op} r, x, b\n{post}  ret r",
                   locs="i64:r, i64:p, i64:x", dom=dom, shape="ld1")
             for im in imms:
@@ -99,6 +111,18 @@ def build_funcs(ck, imms, quick):
                     sim = im - (1 << 64) if im >> 63 else im
                     # a == MIN with imm -1 is excluded by the harness-side domain test on (a, fixed b)
                     g.add(key, "i_i", f"  {op} r, a, {sim}\n{post}  ret r", dom=dom, fixed_b=im, shape="ri")
+            if a in ("add", "sub", "mul", "and", "or", "xor"):
+                # chains of two operations with constants: the optimizer combines the constants
+                CH = [1, 127, 128, 2147483647, 2147483648, 0x180000000, -1, -2147483648, -2147483649, 0x7fffffffffffffff]
+                for c1 in CH:
+                    for c2 in (CH if not quick else CH[3:8]):
+                        comb = {"add": c1 + c2, "sub": c1 + c2, "mul": c1 * c2, "and": c1 & c2, "or": c1 | c2, "xor": c1 ^ c2}[a] & M64
+                        g.add(key, "i_i", f"  {op} r, a, {c1}\n  {op} r, r, {c2}\n{post}  ret r", dom=dom, fixed_b=comb, shape="chain2")
+                    if a in ("add", "sub"):
+                        o2 = ("sub" if a == "add" else "add") + ("s" if short else "")
+                        for c2 in CH[3:8]:
+                            comb = (c1 - c2) & M64
+                            g.add(key, "i_i", f"  {op} r, a, {c1}\n  {o2} r, r, {c2}\n{post}  ret r", dom=dom, fixed_b=comb, shape="chain2 mixed")
             for im in imms[: (3 if quick else len(imms))]:
                 sim = im - (1 << 64) if im >> 63 else im
                 g.add(key + ":swap", "i_i", f"  {op} r, {sim}, a\n{post}  ret r", dom=dom, fixed_b=im, shape="ir")
